@@ -28,7 +28,11 @@ RULE = ("C15's random resolver problems, post-processed so that one name N (the 
         "dependency classes, lang <-> boot build/runtime cycles with or without a boot-bin any-of escape, cycle members "
         "installed or not) - if a final set exists that contains H, is slot-consistent, dependency-closed for every merged and "
         "every leaned-on installed member, unblocked, and can be merged in an order in which every clause of every class is "
-        "already satisfied (no reliance on any cycle), the upgrade run must succeed with H.  Non-trivial policy case: >=2 distinct candidate versions match T (or an installed and a source instance "
+        "already satisfied (no reliance on any cycle), the upgrade run must succeed with H.  Unverified installed database "
+        "(verify_vdb=False, pmerge's default, and nodeps=True): every universe is also resolved after giving each installed "
+        "package of N an unresolvable atom (c/gone) in one of the five dependency classes (cycling, IDEPEND included; an "
+        "installed twin of the highest source version is added now and then): min_install must not merge N when an installed "
+        "package matches T, upgrade must not merge N when an installed package holds the highest version.  Non-trivial policy case: >=2 distinct candidate versions match T (or an installed and a source instance "
         "of H exist / a source version above the installed match exists); distinct = (problem, resolver kind, clause).")
 ASSUMPTIONS = [
     "'resolvable' is decided by an independent run of the resolver on a repository restricted to the candidate in question "
@@ -45,12 +49,16 @@ ASSUMPTIONS = [
     "counted, not judged (greedy search: providers chosen earlier are not revisited, installed packages are not downgraded "
     "to make room, self-blocking packages cannot be placed - the statement does not say how much search is owed)",
     "installed fixtures are built packages (built=True) like the packages of a real vdb",
+    "with verify_vdb=False / nodeps=True the dependencies recorded for installed packages are not examined, so an installed "
+    "match of a target nobody else mentions is always usable: the reuse / installed-preferred clauses are unconditional there "
+    "(a failing run is only judged for single-target problems)",
 ]
 SHARDS = {"quick": 4, "thorough": 16}
 TIMEOUT = {"quick": 240, "thorough": 1800}
 MIN_EVALS = 400
 REQUIRED_COUNTERS = ("policy_upgrade_judged", "policy_min_install_judged", "determinism_pairs", "hashseed_child_compared",
-                     "bruteforce_judged:shape", "bruteforce_compared:random")
+                     "bruteforce_judged:shape", "bruteforce_compared:random",
+                     "unverified_min_install_judged", "unverified_upgrade_judged", "unverified_class:IDEPEND")
 
 K_BUILT_PRUNED = "built-candidate-pruned-by-build-deps"
 
@@ -324,6 +332,46 @@ class Checker:
             highest=hver, oracle_plan=["%s-%s:%s" % tuple(x) for x in plan], status=full_up["status"], chosen=got,
             ops=brief_ops(full_up["ops"]), counterfactual=cf))
 
+    # -- installed database not verified (pmerge's default) ------------------------------------------------
+    def unverified(self, problem, name, target, dep_class=None):
+        """`problem`: installed packages of `name` carry an unresolvable atom; nothing else mentions `name`."""
+        ctx = self.ctx
+        inst = [s for s in problem["installed"] if ref.atom_matches(target, s)]
+        if not inst:
+            return
+        high = ref.highest_matching(problem, target)
+        hver = high[0][1]["ver"]
+        inst_has_h = any(o == "vdb" for o, _s in high)
+        single = len(problem["targets"]) == 1
+        for kwds in ({"verify_vdb": False}, {"nodeps": True}):
+            for kind in ("min_install", "upgrade"):
+                if kind == "upgrade" and not inst_has_h:
+                    continue
+                r = hz.run_problem(problem, kind, self.limit, resolver_kwds=kwds)
+                if r["status"] in ("timeout", "crash"):
+                    ctx.skip_unspecified("resolution crashed or did not finish (C15's clause)")
+                    continue
+                if r["status"] == "failure" and not single:
+                    ctx.count("unverified_multi_target_failure_unjudged")
+                    continue
+                ctx.evaluated()
+                ctx.count("unverified_%s_judged" % kind)
+                if dep_class:
+                    ctx.count("unverified_class:" + dep_class)
+                if len({s["ver"] for s in problem["source"] if ref.atom_matches(target, s)} | {s["ver"] for s in inst}) >= 2:
+                    ctx.nontrivial(json.dumps([problem, kind, sorted(kwds)], sort_keys=True))
+                mg = merges_name(r, name) if r["status"] == "success" else None
+                bad = r["status"] == "failure" or bool(mg)
+                if kind == "upgrade" and not bad:
+                    bad = not any(m["origin"] == "vdb" and pv.cmp_fullver(m["ver"], hver) == 0
+                                  for m in members_of(problem, r) if m["name"] == name and ref.atom_matches(target, m))
+                if bad:
+                    rule = "unverified-vdb-%s-%s" % (kind, "fails" if r["status"] == "failure" else "does-not-keep-installed")
+                    ctx.violation(rule, self.witness(
+                        problem, kind, rule, name=name, target=gp.render_atom(target), resolver_options=kwds,
+                        injected_class=dep_class, installed=[s["ver"] for s in inst], highest=hver, status=r["status"],
+                        ops=brief_ops(r["ops"])))
+
     # -- other interpreter, other hash seed ------------------------------------------------------------
     def hashseed_child(self, problems):
         ctx = self.ctx
@@ -383,6 +431,30 @@ def child_main(path):
     sys.stdout.flush()
 
 
+GONE = {"blk": "", "op": "", "name": "gone", "ver": None, "slot": None}
+
+
+def reuse_variant(rng, problem, name, target, dep_class):
+    """Installed packages of `name` get an unresolvable atom in dep_class; sometimes the highest source version matching
+    the target is installed as well (so that the installed-instance-preferred clause has something to say)."""
+    p = gp._copy(problem)
+    src = [s for s in p["source"] if ref.atom_matches(target, s)]
+    if src and rng.random() < 0.4:
+        best = src[0]
+        for s in src[1:]:
+            if pv.cmp_fullver(s["ver"], best["ver"]) > 0:
+                best = s
+        if not any(i["name"] == best["name"] and i["slot"] == best["slot"] for i in p["installed"]):
+            p["installed"].append(gp._copy(best))
+    hit = False
+    for i in p["installed"]:
+        if i["name"] == name:
+            i["deps"].setdefault(dep_class, [])
+            i["deps"][dep_class] = list(i["deps"][dep_class]) + [dict(GONE)]
+            hit = True
+    return p if hit else None
+
+
 def canonical_universes():
     """Hand-written members of the structured family that every run exercises."""
     A, P = shapes.atom, shapes.pkg
@@ -403,6 +475,7 @@ def run(ctx):
 
     logging.disable(logging.WARNING)
     ck = Checker(ctx)
+    nvar = ctx.shard      # cycles over the five dependency classes
     # (a) random universes
     n = ctx.budget(90, 1200)
     for i in range(n):
@@ -414,6 +487,11 @@ def run(ctx):
         ctx.count("problems")
         full_up = ck.policy(problem, name, target)
         ck.bruteforce(problem, name, target, "random", full_up)
+        cls = gp.DEP_CLASSES[nvar % 5]
+        v = reuse_variant(ctx.rng, problem, name, target, cls)
+        if v is not None:
+            nvar += 1
+            ck.unverified(v, name, target, cls)
         if ctx.out_of_time(70):
             ctx.note("random universes stopped early by the soft deadline after %d problems" % (i + 1))
             break
@@ -432,6 +510,12 @@ def run(ctx):
         else:
             full_up = None
         ck.bruteforce(problem, name, target, "shape", full_up)
+        if i % 3 == 0:
+            cls = gp.DEP_CLASSES[nvar % 5]
+            v = reuse_variant(ctx.rng, problem, name, target, cls)
+            if v is not None:
+                nvar += 1
+                ck.unverified(v, name, target, cls)
         if i % 20 == 0 and ctx.out_of_time(45):
             ctx.note("structured universes stopped early by the soft deadline after %d problems" % (i + 1))
             break
@@ -445,7 +529,10 @@ def replay(ctx, w):
     logging.disable(logging.WARNING)
     ck = Checker(ctx)
     problem = w["problem"]
-    if w.get("name"):
+    if w.get("name") and (w.get("rule") or "").startswith("unverified-vdb"):
+        t = [x for x in problem["targets"] if x["name"] == w["name"]][0]
+        ck.unverified(problem, w["name"], t, w.get("injected_class"))
+    elif w.get("name"):
         t = [x for x in problem["targets"] if x["name"] == w["name"]][0]
         full_up = ck.policy(problem, w["name"], t)
         ck.bruteforce(problem, w["name"], t, w.get("family") or "shape", full_up)
